@@ -1,0 +1,52 @@
+//go:build verif
+
+package meta
+
+import (
+	"io"
+
+	"github.com/hashicorp/raft"
+	"github.com/openGemini/openGemini/lib/config"
+	"github.com/openGemini/openGemini/lib/errno"
+	"github.com/openGemini/openGemini/lib/logger"
+	meta2 "github.com/openGemini/openGemini/lib/util/lifted/influx/meta"
+	proto2 "github.com/openGemini/openGemini/lib/util/lifted/influx/meta/proto"
+	"go.uber.org/zap"
+)
+
+// VerifFSM is a handle on a storeFSM that is not attached to raft, for the C15/C16 verification
+// harnesses (catalogue well-formedness, replica convergence). Thin wrappers only, no behaviour.
+type VerifFSM struct{ s *Store }
+
+// VerifNewFSM builds a Store exactly as NewStore does (never opened, no raft) with a silent logger.
+func VerifNewFSM(c *config.Meta) *VerifFSM {
+	s := NewStore(c, "", "", "")
+	s.Logger = logger.NewLogger(errno.ModuleUnknown).SetZapLogger(zap.NewNop())
+	return &VerifFSM{s: s}
+}
+
+func (f *VerifFSM) fsm() *storeFSM { return (*storeFSM)(f.s) }
+
+// Data returns the live catalogue of the state machine.
+func (f *VerifFSM) Data() *meta2.Data { return f.s.data }
+
+// ExecuteCmd is storeFSM.executeCmd.
+func (f *VerifFSM) ExecuteCmd(cmd *proto2.Command) interface{} { return f.fsm().executeCmd(*cmd) }
+
+// Apply is storeFSM.Apply.
+func (f *VerifFSM) Apply(l *raft.Log) interface{} { return f.fsm().Apply(l) }
+
+// Snapshot is storeFSM.Snapshot.
+func (f *VerifFSM) Snapshot() (raft.FSMSnapshot, error) { return f.fsm().Snapshot() }
+
+// Restore is storeFSM.Restore.
+func (f *VerifFSM) Restore(r io.ReadCloser) error { return f.fsm().Restore(r) }
+
+// VerifCommandTypes lists the command types registered in the applyFunc dispatch table.
+func VerifCommandTypes() []proto2.Command_Type {
+	res := make([]proto2.Command_Type, 0, len(applyFunc))
+	for t := range applyFunc {
+		res = append(res, t)
+	}
+	return res
+}
